@@ -369,3 +369,12 @@ def l7(ctx):
                               "%s.%s is %s: every store object of the process shares one map, so a scan of one collection drops or hides the UIDs of another"
                               % (ci.name, attr, ("a class attribute of %s" % shared[0].name) if shared else "not created afresh in __init__")))
     return obs
+
+
+@rule("C05", "L8", floor=2, kind="N",
+      desc="a refusal decided from the uid map is final: once _check_duplicate has found that another resource holds the "
+           "UID it raises, whatever else may have changed meanwhile (subset of C06/U1) - 're-validating' the conflict against "
+           "state that a concurrent writer is changing lets two resources end up with one UID")
+def l8(ctx):
+    from .c06 import u1
+    return [o for o in u1(ctx) if o.detail == "a different holder always refuses"]
